@@ -83,7 +83,7 @@ type ContractDB struct {
 var clauseKinds = map[string]bool{
 	"props": true, "mode": true, "requires": true, "ensures": true, "modifies": true,
 	"loop": true, "lemma": true, "ghost": true, "panics-when": true, "search-pred": true,
-	"replay": true, "replay-reader": true, "returns": true, "callsite": true, "search": true, "trusted": true, "assume": true, "unroll": true, "inline": true,
+	"replay": true, "replay-reader": true, "returns": true, "callsite": true, "search": true, "reveal": true, "trusted": true, "assume": true, "unroll": true, "inline": true,
 	"reads": true, "pure": true, "let": true, "assert": true, "nosafety": true,
 	"crash-invariant": true, "frame": true, "closure": true, "bound": true,
 }
@@ -161,7 +161,7 @@ func parseContractFile(db *ContractDB, path string, defaultPkg string) error {
 			db.Views[f[0]] = [2]string{f[1], f[2]}
 			cur, last, lastDef = nil, nil, nil
 			continue
-		case "define", "ufun", "axiom", "ghostvar", "const":
+		case "define", "ufun", "axiom", "ghostvar", "const", "opaque":
 			d := &SpecDef{Kind: word, File: path, Line: ln, Pkg: pkg}
 			if err := parseDef(d, rest); err != nil {
 				return fmt.Errorf("%s:%d: %v", path, ln, err)
@@ -312,7 +312,7 @@ func parseDef(d *SpecDef, rest string) error {
 		}
 	}
 	switch d.Kind {
-	case "define":
+	case "define", "opaque":
 		d.Params = parts
 		if !strings.HasPrefix(tail, "=") {
 			return fmt.Errorf("define %s: missing '='", d.Name)
